@@ -23,7 +23,7 @@ import (
 //
 // T: str int uint float bool dur time err bytes nil map struct mok mfail mgarbage mempty raw(json.RawMessage: well-formed incl. pretty-printed, or garbage)
 // ansi chan func tmok tmfail stringer nilerr niltm nilm (typed nil pointers whose value-receiver
-// Error / MarshalText / MarshalJSON method cannot be called)
+// Error / MarshalText / MarshalJSON method cannot be called) tmpanic errpanic (methods that panic on a good receiver)
 type Val struct {
 	T string `json:"t"`
 	B []byte `json:"b,omitempty"` // string payload (arbitrary bytes)
@@ -70,6 +70,16 @@ type tmFail struct{ msg string }
 func (m tmFail) MarshalText() ([]byte, error) { return nil, errors.New(m.msg) }
 
 type valErr struct{ msg string }
+
+// methods that panic on a perfectly good receiver: a struct value (MarshalText) and a non-nil
+// pointer (Error)
+type tmPanic struct{ n int }
+
+func (m tmPanic) MarshalText() ([]byte, error) { panic("MarshalText gave up") }
+
+type errPanic struct{ n int }
+
+func (e *errPanic) Error() string { panic("Error gave up") }
 
 func (e valErr) Error() string { return e.msg }
 
@@ -150,6 +160,10 @@ func (v Val) anyOf() any {
 		return (*tmOK)(nil)
 	case "nilm":
 		return (*mOK)(nil)
+	case "tmpanic":
+		return tmPanic{3}
+	case "errpanic":
+		return &errPanic{4}
 	}
 	panic("attrgen: no any value for kind " + v.T)
 }
@@ -338,7 +352,7 @@ func (v Val) JSONValue() logparse.JV {
 		return logparse.JV{Kind: "null"}
 	case "mfail":
 		return logparse.JV{Kind: "errstr", Contains: FFFD(string(v.B))}
-	case "mgarbage", "mempty", "chan", "func", "tmfail", "nilerr":
+	case "mgarbage", "mempty", "chan", "func", "tmfail", "nilerr", "tmpanic", "errpanic":
 		return logparse.JV{Kind: "errstr"}
 	}
 	// everything else: as encoding/json encodes it
@@ -429,7 +443,7 @@ func (v Val) TextValue() TextExp {
 		return TextExp{Mode: "dur", D: time.Duration(v.I)}
 	case "time":
 		return TextExp{Mode: "exact", S: v.timeOf().Format(time.RFC3339)}
-	case "nilerr", "niltm":
+	case "nilerr", "niltm", "tmpanic", "errpanic":
 		return TextExp{Mode: "any"} // no text of its own (the method cannot be called): any one token
 	}
 	return TextExp{Mode: "exact", S: fmt.Sprint(v.anyOf())}
